@@ -289,6 +289,27 @@ class CWorld(object):
                     kw2["sid"] = kw2.pop("key")          # stored-only stand-in for the key
                     w.add_document(**kw2)
                 w.commit(merge=opts.get("merge", True), optimize=opts.get("optimize", False))
+            elif step[0] == "commit" and opts.get("import"):
+                # the documents come from another index (IndexWriter.add_reader): written there in two segments,
+                # together with one more document that is deleted again before the import
+                from whoosh.filedb.filestore import RamStorage
+                side = RamStorage().create_index(self.schema)
+                ks = list(step[1])
+                cut = len(ks) // 2
+                for part in [p for p in (ks[:cut], ks[cut:]) if p]:
+                    sw = side.writer()
+                    for k in part:
+                        sw.add_document(**concrete_kwargs(adocs[k]))
+                    if part is not ks[:cut] or not cut:
+                        sw.add_document(**dict(concrete_kwargs(adocs[ks[0]]), key=u"zz-not-imported"))
+                    sw.commit(merge=False)
+                sw = side.writer()
+                sw.delete_by_term("key", u"zz-not-imported")
+                sw.commit(merge=False)
+                with side.reader() as srd:
+                    w.add_reader(srd)
+                w.commit(merge=opts.get("merge", True), optimize=opts.get("optimize", False))
+                side.close()
             elif step[0] == "commit":
                 self._add_all(w, step[1], adocs)
                 w.commit(merge=opts.get("merge", True), optimize=opts.get("optimize", False))
